@@ -41,10 +41,10 @@ static void *atomic_load_ptr(void **p)
   return *p;
 }
 /* std::atomic<void*>::compare_exchange_weak (may fail spuriously; on failure `expected` receives the current value) */
-static bool atomic_cas_weak_ptr(void **p, void **expected, void *desired)
+static bool atomic_cas_ptr(void **p, void **expected, void *desired, bool may_fail_spuriously)
 {
   interfere(p);
-  if (*p == *expected && nondet_bool())
+  if (*p == *expected && (!may_fail_spuriously || nondet_bool()))
   {
     VX_ASSERT(!lin, "at most one successful atomic step per call");
     lin_old = *p;
@@ -59,6 +59,24 @@ static bool atomic_cas_weak_ptr(void **p, void **expected, void *desired)
   g_last_read = *p;
   return false;
 }
+
+static bool atomic_cas_weak_ptr(void **p, void **expected, void *desired) { return atomic_cas_ptr(p, expected, desired, true); }
+static bool atomic_cas_strong_ptr(void **p, void **expected, void *desired) { return atomic_cas_ptr(p, expected, desired, false); }
+/* std::atomic<void*>::exchange / store: unconditional writes (not used by add_op_state today; bound so that an edit that
+ * introduces them is decided against the guarantee instead of failing extraction) */
+static void *atomic_exchange_ptr(void **p, void *desired)
+{
+  interfere(p);
+  VX_ASSERT(!lin, "at most one successful atomic step per call");
+  lin_old = *p;
+  *p = desired;
+  lin_new = desired;
+  lin = true;
+  VX_ASSERT(lin_old != SENTINEL(vx_self), "guarantee: the sentinel is final -- an unconditional write may replace `this`");
+  VX_ASSERT(GUAR(lin_old, lin_new), "guarantee: the step installs the caller's op_state with op_state->next == replaced head");
+  return lin_old;
+}
+static void atomic_store_ptr(void **p, void *desired) { (void) atomic_exchange_ptr(p, desired); }
 
 //@FUNC
 bool add_op_state(struct ss *self, async_rw_mutex_operation_state_base *op_state)
